@@ -27,3 +27,6 @@ package cstate
 //@   opt assumecallreqs
 //@   atcall ValidatorSet.VerifyCommit requires [lastCommitAgainstPreviousSet] vs == state.LastValidators && chainID == state.ChainID && blockID == state.LastBlockID
 //@   atcall MedianTime requires [medianOverPreviousSet] validators == state.LastValidators
+
+// ValidateBlock consults and fills the executor's validation cache; it does not write consensus state.
+//@ trusted func (blockExec *BlockExecutor) ValidateBlock(state LatestBlockState, block *types.Block) (err error)
